@@ -143,10 +143,8 @@ def scanNumber (b : Bytes) : Nat × TokType :=
     let n1 := takeWhileLen isDigit b
     let b1 := b.drop n1
     -- fraction
-    let (n2, ty2) :=
-      if b1.headD 0 == 46 && isDigit (b1.tail.headD 0) then
-        (n1 + 1 + takeWhileLen isDigit (b1.drop 1), TokType.float)
-      else (n1, TokType.int)
+    let hasFrac := b1.headD 0 == 46 && isDigit (b1.tail.headD 0)
+    let n2 := if hasFrac then n1 + 1 + takeWhileLen isDigit (b1.drop 1) else n1
     let b2 := b.drop n2
     -- exponent
     if b2.headD 0 == 101 || b2.headD 0 == 69 then
@@ -155,7 +153,7 @@ def scanNumber (b : Bytes) : Nat × TokType :=
       let b4 := b3.drop sgn
       if !isDigit (b4.headD 0) then (n2 + 1 + sgn, .float)
       else (n2 + 1 + sgn + takeWhileLen isDigit b4, .float)
-    else (n2, ty2)
+    else (n2, if hasFrac then .float else .int)
 
 /-! ## string literals (readString) -/
 
